@@ -415,7 +415,9 @@ func callsOrDelegates(c *Ctx, f *ssa.Function, callee string, depth int) []ssa.C
 			out = append(out, ci)
 			continue
 		}
-		if g := ci.Common().StaticCallee(); depth < 2 && (c.freshFunc(g) || pureDelegate(c, f) == ci) && allReturnsPrecededBy(c, g, callee, depth+1) {
+		// any function of the package every return of which is itself preceded by such a call does as well as the
+		// call itself (c.clipperBase.execute clears before it returns)
+		if g := ci.Common().StaticCallee(); depth < 2 && g != nil && g.Blocks != nil && c.inRepo(g) && allReturnsPrecededBy(c, g, callee, depth+1) {
 			out = append(out, ci)
 		}
 	}
@@ -489,7 +491,24 @@ func pureDelegate(c *Ctx, f *ssa.Function) ssa.CallInstruction {
 		return ""
 	}
 	if recvName(f) != recvName(g) {
-		return nil
+		// ... or a method of a struct embedded in f's receiver (c.clipperBase.execute from a clipper64 method)
+		emb := false
+		if r := f.Signature.Recv(); r != nil && g.Signature.Recv() != nil {
+			if st, _ := derefStruct(r.Type()); st != nil {
+				for i := 0; i < st.NumFields(); i++ {
+					if st.Field(i).Embedded() && strings.TrimPrefix(typeName(st.Field(i).Type()), "*") == recvName(g) {
+						emb = true
+					}
+				}
+			}
+		}
+		if !emb || !allowEmbeddedDelegate {
+			return nil
+		}
 	}
 	return only
 }
+
+// allowEmbeddedDelegate: set by the rules for which delegation to an embedded struct's method counts (epilogues);
+// the D/64 call-skeleton comparison leaves it off, because there the 64 side would be expanded and the D side not.
+var allowEmbeddedDelegate = false
